@@ -13,6 +13,12 @@ mod matrix;
 mod mon_c01;
 mod mon_c02;
 mod mon_c03;
+mod mon_c05;
+mod mon_c07;
+mod mon_c08;
+mod mon_c09;
+mod mon_c10;
+mod mon_c11;
 mod mon_c16;
 mod mon_struct;
 mod pins;
@@ -29,6 +35,12 @@ fn monitor(id: &str) -> Option<Box<dyn Monitor>> {
         "C02" => Some(Box::new(mon_c02::C02)),
         "C03" => Some(Box::new(mon_c03::C03)),
         "C04" => Some(Box::new(mon_struct::C04)),
+        "C05" => Some(Box::new(mon_c05::C05)),
+        "C07" => Some(Box::new(mon_c07::C07)),
+        "C08" => Some(Box::new(mon_c08::C08)),
+        "C09" => Some(Box::new(mon_c09::C09)),
+        "C10" => Some(Box::new(mon_c10::C10)),
+        "C11" => Some(Box::new(mon_c11::C11)),
         "C13" => Some(Box::new(mon_struct::C13)),
         "C16" => Some(Box::new(mon_c16::C16)),
         _ => None,
@@ -42,6 +54,9 @@ fn main() {
         std::process::exit(2);
     }
     match args[1].as_str() {
+        "c05-child" => {
+            mon_c05::child_main(&args[2..]);
+        }
         "worker" => {
             install_panic_hook();
             let mut out = silence_stdio();
@@ -123,6 +138,9 @@ fn main() {
             let idx: u64 = args[4].parse().unwrap();
             let r = mon.run_case(&args[3], idx);
             println!("class: {}\nnontrivial: {}\ncounters: {:?}", r.class, r.nontrivial, r.counters);
+            if let Some(sm) = &r.sample {
+                println!("sample: {}", serde_json::to_string_pretty(sm).unwrap());
+            }
             for v in &r.violations {
                 println!("VIOLATION {}\n{}\n{}", v.signature, v.summary, serde_json::to_string_pretty(&v.replay).unwrap());
             }
